@@ -167,6 +167,7 @@ type rewriter struct {
 	err     error
 	skip    map[ast.Node]bool // comm-clause heads handled by the select rewrite
 	n       int
+	goTmp   int
 }
 
 func (r *rewriter) fail(n ast.Node, format string, a ...any) {
@@ -368,13 +369,29 @@ func (r *rewriter) goStmt(g *ast.GoStmt) ast.Stmt {
 	case *ast.SelectorExpr:
 		name = f.Sel.Name
 	}
-	for _, a := range g.Call.Args {
-		if !pure(a) {
-			r.fail(g, "go statement with a non-trivial argument expression is not supported by the instrumenter")
-		}
+	// The arguments of a go statement are evaluated by the spawning goroutine: non-trivial ones are evaluated into
+	// temporaries first (`go f(g(), x)` => `{ _vgo0 := g(); rt.Go("f", func() { f(_vgo0, x) }) }`).
+	var pre []ast.Stmt
+	if g.Call.Ellipsis != token.NoPos {
+		r.fail(g, "go statement with a variadic spread argument is not supported by the instrumenter")
 	}
+	for i, a := range g.Call.Args {
+		if pure(a) {
+			continue
+		}
+		// (a multi-valued call as the only argument makes the generated code fail to compile: the build step
+		// reports that as an engine error)
+		tmp := ast.NewIdent(fmt.Sprintf("_vgo%d_%d", r.goTmp, i))
+		pre = append(pre, &ast.AssignStmt{Lhs: []ast.Expr{tmp}, Tok: token.DEFINE, Rhs: []ast.Expr{a}})
+		g.Call.Args[i] = tmp
+	}
+	r.goTmp++
 	body := &ast.BlockStmt{List: []ast.Stmt{&ast.ExprStmt{X: g.Call}}}
-	return &ast.ExprStmt{X: callRT("Go", &ast.BasicLit{Kind: token.STRING, Value: strconv.Quote(name)}, &ast.FuncLit{Type: &ast.FuncType{Params: &ast.FieldList{}}, Body: body})}
+	spawn := &ast.ExprStmt{X: callRT("Go", &ast.BasicLit{Kind: token.STRING, Value: strconv.Quote(name)}, &ast.FuncLit{Type: &ast.FuncType{Params: &ast.FieldList{}}, Body: body})}
+	if len(pre) == 0 {
+		return spawn
+	}
+	return &ast.BlockStmt{List: append(pre, spawn)}
 }
 
 func (r *rewriter) enclosing(n ast.Node) string {
